@@ -81,7 +81,8 @@ func (s *service) Evaluate(ctx context.Context, request *pb.EvaluateRequestProto
 		Result: pe,
 	}
 	if _, err := proto.Marshal(r); err != nil {
-		panic(err)
+		// For example, a tag value from the world that isn't valid UTF-8
+		return nil, err
 	}
 	return &pb.EvaluateResponseProto{
 		Result: pe,
